@@ -13,9 +13,15 @@ get_correlation_results (every subset of the names + one with an unknown name); 
 print_general_statistics; get_var_covar / get_robust_var_covar / get_bootstrap_var_covar; short_summary; __str__;
 get_html (both switches); get_f12 (both switches).
 
-Parts:  'o' outcomes x all views;  'c' compile_estimation_results over all ordered tuples of 1..3 models
-from a pool x all 2^5 flag combinations;  'l' likelihood_ratio_test over a grid;  'r' real estimations
-(real BIOGEME objects, bootstrap resamples owned through numpy.random.randint).
+Parts:  'o' outcomes x all views - the original product with unit-scale Hessians and identification_threshold
+1e-5, plus the product (parameter scaling: unit / all tiny / one or two badly scaled parameters / all huge) x
+(identification_threshold of the results object: constructor default, 0, 1e-9, 1e-5, 1e-2, 1, 1e4) x outcome;
+'c' compile_estimation_results over all ordered tuples of 1..3 models from a pool x all 2^5 flag combinations;
+'p' the same call with every entry given as a results object / the name of its pickle file / a name behind which
+nothing can be read (missing, corrupt, foreign pickle, empty file, directory) - full product of the kinds over the
+positions - and compile_results_in_directory on the same files;  'l' likelihood_ratio_test over a grid;
+'r' real estimations (real BIOGEME objects, bootstrap resamples owned through numpy.random.randint, the
+identification_threshold parameter of BIOGEME).
 """
 from __future__ import annotations
 
@@ -33,23 +39,30 @@ TECHNIQUE = ('bounded exhaustive enumeration of synthetic raw estimation outcome
              'and report switches on the real bioResults code, every reported cell compared with an independent '
              'exact-rational recomputation of the quantity its label names')
 RULE = ('cases: (o) one case per (raw outcome, view[, switch]) with outcome = element of the product K x Hessian x BHHH x '
-        'estimates x (null, init) log likelihood x bootstrap sample x bounds x sample size; (c) one case per (ordered '
-        'tuple of 1..3 pool models, 5 flags, statistics list); (l) one case per ((L1,K1),(L2,K2),alpha) and call form; '
-        '(r) one case per (real model, bootstrap tape, view). A case is non-trivial when at least one numeric cell was '
+        'estimates x (null, init) log likelihood x bootstrap sample x bounds x sample size [x parameter scaling x '
+        'identification threshold]; (c) one case per (ordered tuple of 1..3 pool models, 5 flags, statistics list); '
+        '(p) one case per (ordered tuple of 1..3 pool models, kind of each entry - object / pickle file / one of the '
+        'unreadable kinds -, call form dict / directory, flags); (l) one case per ((L1,K1),(L2,K2),alpha) and call form; '
+        '(r) one case per (real model, bootstrap tape, identification threshold, view). A case is non-trivial when at least one numeric cell was '
         'compared with the reference (cells whose defining formula is undefined - zero variance, zero divisor - are '
         'skipped and counted); distinct = distinct (part, outcome / tuple / grid point, view, switch) keys.')
 ASSUMPTIONS = [
     'raw outcomes are injected through a stub model object with exactly the attributes RawResults.__init__ reads; '
     'part (r) confirms on real BIOGEME objects that the same fields are filled',
     'domain: Hessians are negative semi-definite with entries on a small dyadic grid (exactly singular or condition '
-    'number < 100); cells whose formula is undefined (zero variance, non-positive pair variance, zero initial '
+    'number < 100), optionally rescaled by a diagonal congruence with powers of two (eigenvalues of -H down to 2^-28, '
+    'condition number up to about 1e9, still far from floating-point singularity; the library agrees with the exact '
+    'reference to 1e-12 there); rescaled outcomes whose robust sandwich has an entry that is an exact or near '
+    'cancellation (ratio > 1e6) are excluded and counted; cells whose formula is undefined (zero variance, non-positive pair variance, zero initial '
     'likelihood, exact ties of the LR test) are skipped and counted, not compared',
     'p-values are compared with an absolute tolerance of 1e-12 (+ propagated 1e-10 relative error of t): for |t| > 7 all '
     'p-values are indistinguishable from 0 at that tolerance',
     'text views (print_general_statistics, short_summary, __str__, get_html, get_f12) are compared after formatting the '
     'reference with the same format specification (figures below 1e-6 of the scale, printed with 3 digits, are rounding '
-    'noise and skipped); eigen-structure figures, timing fields, get_latex and the pickle-file entry of '
-    'compile_estimation_results are not checked',
+    'noise and skipped); eigen-structure figures, the identification warning, timing fields and get_latex are not '
+    'checked',
+    'a column of a compiled table whose entry cannot be read (no results exist for that model) must hold no figure; '
+    'which warning is logged for it is not checked; readable pickle files are written by bioResults.write_pickle',
     'results without a Hessian or without an initial log likelihood (quick_estimate) are outside the quantifier; the '
     'initial log likelihood "absent" / "zero" alphabets only check that the remaining cells stay correct',
     'the reference normal CDF is math.erfc, the chi-square CDF a series / continued fraction written for this check',
@@ -278,6 +291,7 @@ def reference(m):
 
 # ----------------------------------------------------------------------------------------- comparison
 FAMS = ('classical', 'robust', 'bootstrap')
+SANDWICH_MAX = 1e6  # largest accepted cancellation ratio of the robust sandwich for rescaled outcomes
 
 
 def isnum(x):
@@ -679,8 +693,14 @@ def check_outcome(d, seed, rec, sample=False, views=None):
     m = materialise(d, seed)
     case = dict(part='o', desc=d, seed=seed)
     tag = 'outcome ' + ','.join(f'{k}={v}' for k, v in d.items()) + f',seed={seed}'
-    ref = reference(m)
     okey = tuple(sorted(d.items()))
+    if d.get('hsc', 'unit') != 'unit' and rs.sandwich_cancellation(m['hessian'], m['bhhh']) > SANDWICH_MAX:
+        # an entry of V B V is a (near-)exact zero made of large terms: with the variances rescaled by 2^±24 the
+        # rounding noise in it is no longer below the absolute tolerance - ill-conditioned, excluded and counted
+        rec.count('skipped_ill_conditioned_sandwich')
+        rec.case(None, ('ill-conditioned-sandwich', okey), outcome='skipped-ill-conditioned-sandwich')
+        return
+    ref = reference(m)
     try:
         r = build_results(m)
     except Exception as e:  # every enumerated outcome is inside the quantifier: construction must succeed
